@@ -6,7 +6,7 @@
    grammar seg / wf_name / pr_int / pr_surf, spec_expand, var_value) are in Proofs/FilenamesProofs.v. *)
 From Coq Require Import List ZArith NArith Bool.
 Import ListNotations.
-From Verif Require Import Val Filenames FilenamesProofs.
+From Verif Require Import Val Filenames FilenamesProofs FilenamesSpec FilenamesSpelling.
 Local Open Scope Z_scope.
 
 (* M1: for every configuration, every generator state (hence every template, parsed or not, and every reserved set)
@@ -183,6 +183,126 @@ Example C15_parse_print_nonvacuous :
   template_files static (Some w) =
     [FStr [105;110;100;101;120]; FList [[36;123;105;100;125]; [115;101;99;116;36;123;110;117;109;46;52;125]]].
 Proof. exact parse_print_example. Qed.
+
+(* The property as one statement (Spec = the reference generator [s_request] / [s_run] of Proofs/FilenamesSpec.v, written from the
+   property text on the template AST: static names first and in order, then the alternatives of the wildcard pass after pass, the
+   first candidate that is bound and fresh, the number advancing on numbered candidates issued or skipped as taken, at most 101
+   passes per request, then an error; the namespace returns to the one of the first request after each issued name).
+   For all static names and wildcard alternatives of the documented grammar in which a variable occurs at most once per name, every
+   forbidden-character set, extension, reserved set, initial namespace and every history of requests that leave "num" alone: the
+   Model of Filenames, started on the parsed template, returns exactly the results of the Spec. *)
+Theorem C15_model_meets_spec :
+  forall c static wild files vars0 reserved reqs,
+    legacy_reset c = false -> legacy_words c = false -> legacy_passes c = false ->
+    split_files files [] = (map pr_int static, map pr_int wild) ->
+    Forall name_ok static -> Forall name_ok wild -> lookup k_num vars0 = None -> Forall no_num reqs ->
+    map fst (fst (run c {| ph := PFresh files; vars := vars0; inval := reserved |} reqs)) =
+    s_run c (s_init static wild vars0 reserved) reqs.
+Proof. exact model_meets_spec. Qed.
+Print Assumptions C15_model_meets_spec.
+
+(* ... and from the template STRING: parseFilenames succeeds on the printed template and the Model then returns the Spec's results *)
+Theorem C15_template_string_meets_spec :
+  forall c static wild vars0 reserved reqs,
+    legacy_reset c = false -> legacy_words c = false -> legacy_passes c = false ->
+    Forall wf_name1 static -> (match wild with Some w => wf_wild w | None => True end) ->
+    Forall name_ok (fst (template_names static wild)) -> Forall name_ok (snd (template_names static wild)) ->
+    lookup k_num vars0 = None -> Forall no_num reqs ->
+    exists files,
+      parse_filenames (pr_surf (template_toks static wild)) = Some files /\
+      map fst (fst (run c {| ph := PFresh files; vars := vars0; inval := reserved |} reqs)) =
+      s_run c (s_init (fst (template_names static wild)) (snd (template_names static wild)) vars0 reserved) reqs.
+Proof. exact template_string_meets_spec. Qed.
+Print Assumptions C15_template_string_meets_spec.
+
+Example C15_spec_nonvacuous :
+  let static := [[SLit [105;110;100;101;120]]] in
+  let w := {| w_pre := []; w_alt0 := [SVar [105;100] None]; w_alts := [[SLit [115;101;99;116]; SVar k_num (Some [52])]]; w_post := [] |} in
+  let c := {| cs := None; ext := [46;104;116;109;108]; legacy_reset := false; legacy_words := false; legacy_passes := false |} in
+  let reqs := [[]; [([105;100], [97])]; [([105;100], [97])]; []] in
+  (Forall wf_name1 static /\ wf_wild w /\
+   Forall name_ok (fst (template_names static (Some w))) /\ Forall name_ok (snd (template_names static (Some w))) /\ Forall no_num reqs) /\
+  s_run c (s_init (fst (template_names static (Some w))) (snd (template_names static (Some w))) [] [[115;101;99;116;48;48;48;50;46;104;116;109;108]]) reqs =
+    [RName [105;110;100;101;120;46;104;116;109;108]; RName [97;46;104;116;109;108];
+     RName [115;101;99;116;48;48;48;49;46;104;116;109;108]; RName [115;101;99;116;48;48;48;51;46;104;116;109;108]].
+Proof. exact spec_example. Qed.
+
+(* M7 for EVERY spelling of the documented grammar.  [sts] is the template as written: literal runs, variables written $x or
+   ${x} with any blanks inside the braces, widths ( n ) with any blanks inside the parentheses, "[" followed by blanks, "]" preceded
+   by blanks, "," surrounded by blanks; [erase] forgets the spelling, [prss 0] is the text as written.  Whenever the erased tokens are
+   those of a template of the grammar, every blank run is white space, and no brace-less width-less "$x" is run together with a
+   literal that starts with a word character: parseFilenames returns exactly the template -- the six substitutions are followed
+   token by token ($x -> ${x}; ${ x } -> ${x}; }( n ) -> .n}; blanks after "[", before "]", around "," removed). *)
+Theorem C15_parse_spelled_template :
+  forall static wild sts,
+    Forall wf_name1 static -> (match wild with Some w => wf_wild w | None => True end) ->
+    map erase sts = template_toks static wild -> Forall spell_ok sts -> unbraced_ok sts ->
+    parse_filenames (prss 0 sts) = Some (template_files static wild).
+Proof. exact parse_spelled_template. Qed.
+Print Assumptions C15_parse_spelled_template.
+
+(* ... and the whole property from the template as written, in any spelling *)
+Theorem C15_spelled_string_meets_spec :
+  forall c static wild sts vars0 reserved reqs,
+    legacy_reset c = false -> legacy_words c = false -> legacy_passes c = false ->
+    Forall wf_name1 static -> (match wild with Some w => wf_wild w | None => True end) ->
+    map erase sts = template_toks static wild -> Forall spell_ok sts -> unbraced_ok sts ->
+    Forall name_ok (fst (template_names static wild)) -> Forall name_ok (snd (template_names static wild)) ->
+    lookup k_num vars0 = None -> Forall no_num reqs ->
+    exists files,
+      parse_filenames (prss 0 sts) = Some files /\
+      map fst (fst (run c {| ph := PFresh files; vars := vars0; inval := reserved |} reqs)) =
+      s_run c (s_init (fst (template_names static wild)) (snd (template_names static wild)) vars0 reserved) reqs.
+Proof. exact spelled_string_meets_spec. Qed.
+Print Assumptions C15_spelled_string_meets_spec.
+
+(* non-vacuity: "index [$id, sect$num(4)]" exactly as the docstring writes it, and "index [  ${ id  } , sect${ num  }( 4<TAB>) ]" *)
+Example C15_spelled_nonvacuous :
+  let static := [[SLit [105;110;100;101;120]]] in
+  let w := {| w_pre := []; w_alt0 := [SVar [105;100] None]; w_alts := [[SLit [115;101;99;116]; SVar k_num (Some [52])]]; w_post := [] |} in
+  let plain_sty := {| v_braced := false; v_in1 := []; v_in2 := []; v_w1 := []; v_w2 := [] |} in
+  let rich_sty := {| v_braced := true; v_in1 := [32]; v_in2 := [32;32]; v_w1 := [32]; v_w2 := [9] |} in
+  let sts1 := [SLitT [105;110;100;101;120]; SSp; SLbT []; SVarT [105;100] None plain_sty; SCmT [] [32];
+               SLitT [115;101;99;116]; SVarT k_num (Some [52]) plain_sty; SRbT []] in
+  let sts2 := [SLitT [105;110;100;101;120]; SSp; SLbT [32;32]; SVarT [105;100] None rich_sty; SCmT [32] [32];
+               SLitT [115;101;99;116]; SVarT k_num (Some [52]) rich_sty; SRbT [32]] in
+  prss 0 sts1 = [105;110;100;101;120;32;91;36;105;100;44;32;115;101;99;116;36;110;117;109;40;52;41;93] /\
+  map erase sts1 = template_toks static (Some w) /\ Forall spell_ok sts1 /\ unbraced_ok sts1 /\
+  map erase sts2 = template_toks static (Some w) /\ Forall spell_ok sts2 /\ unbraced_ok sts2 /\
+  parse_filenames (prss 0 sts1) = Some (template_files static (Some w)) /\
+  parse_filenames (prss 0 sts2) = Some (template_files static (Some w)).
+Proof. exact spelled_example. Qed.
+
+(* Clean names (the title of the property).  For the Model, in every history: when the substitute is not itself forbidden, digits are
+   not forbidden, the literal text of the template and the extension contain no forbidden character, and -- if the blank is forbidden --
+   all white space is forbidden, then no issued name contains a forbidden character.  (The last hypothesis is needed: see the
+   counterexample below.) *)
+Theorem C15_names_clean :
+  forall c bad sub static wild files vars0 reserved reqs name,
+    legacy_reset c = false -> legacy_words c = false -> legacy_passes c = false ->
+    split_files files [] = (map pr_int static, map pr_int wild) ->
+    Forall name_ok static -> Forall name_ok wild -> lookup k_num vars0 = None -> Forall no_num reqs ->
+    cs c = Some (bad, sub) ->
+    (forall ch, In ch sub -> ~ In ch bad) -> (forall ch, In ch bad -> is_digit ch = false) ->
+    (In 32 bad -> forall ch, is_space ch = true -> In ch bad) ->
+    Forall (lits_clean bad) static -> Forall (lits_clean bad) wild -> clean bad (ext c) ->
+    In name (names_of (fst (run c {| ph := PFresh files; vars := vars0; inval := reserved |} reqs))) -> clean bad name.
+Proof. exact model_names_clean. Qed.
+Print Assumptions C15_names_clean.
+
+Example C15_names_clean_nonvacuous :
+  let c := {| cs := Some ([58; 47], [45]); ext := [46; 120]; legacy_reset := false; legacy_words := false; legacy_passes := false |} in
+  let wild := [[SVar [116] None]] in
+  ((forall ch, In ch [45] -> ~ In ch [58; 47]) /\ (forall ch, In ch [58; 47] -> is_digit ch = false) /\
+   (In 32 [58; 47] -> forall ch, is_space ch = true -> In ch [58; 47]) /\ Forall (lits_clean [58; 47]) wild /\ clean [58; 47] (ext c)) /\
+  s_run c (s_init [] wild [] []) [[([116], [97; 58; 98; 47; 99])]] = [RName [97; 45; 98; 45; 99; 46; 120]].
+Proof. exact clean_example. Qed.
+
+(* with only the blank forbidden, "a<TAB>b" cut to 2 words is "a b": the word limit puts a forbidden blank back *)
+Example C15_clean_needs_whitespace_hypothesis :
+  let c := {| cs := Some ([32], [45]); ext := []; legacy_reset := false; legacy_words := false; legacy_passes := false |} in
+  spec_expand c 1 [([116], [97; 9; 98])] [SVar [116] (Some [50])] = Some [97; 32; 98].
+Proof. exact clean_needs_whitespace_hypothesis. Qed.
 
 (* findings on the code before the repairs, on the faithful (legacy) Model *)
 Theorem C15_legacy_reset_refuted :
